@@ -14,6 +14,7 @@
 """Subprocess support.
 """
 
+import re
 import sys
 
 import zope.testrunner.feature
@@ -43,10 +44,12 @@ class SubProcess(zope.testrunner.feature.Feature):
         print(self.runner.ran,
               len(self.runner.failures), len(self.runner.errors),
               file=self.original_stderr)
+        # One line per name: the parent splits the report into lines at
+        # ``\r`` as well as at ``\n``.
         for test, exc_info in self.runner.failures:
-            print(' '.join(str(test).strip().split('\n')),
+            print(' '.join(re.split('[\r\n]', str(test).strip())),
                   file=self.original_stderr)
         for test, exc_info in self.runner.errors:
-            print(' '.join(str(test).strip().split('\n')),
+            print(' '.join(re.split('[\r\n]', str(test).strip())),
                   file=self.original_stderr)
         self.original_stderr.flush()
